@@ -218,6 +218,64 @@ pub fn run(ctx: &mut Ctx) -> (&'static str, String, bool) {
         ctx.part.distinct_extra += n; // random 32-bit draws: collisions with the enumerated part are negligible and not counted
     }
 
+    // ---- vehicle values reachable by decoding a packet: IS_MAL carries bare mod ids, whatever their bytes spell ----
+    {
+        use crate::corpus::{real_decode, real_encode, Dec, Enc};
+        let mut p = Part::new();
+        let mut r = ctx.rng.fork(1313);
+        let names: Vec<[u8; 3]> = accepted.iter().copied().collect();
+        for round in 0..40 {
+            let mut ids: Vec<[u8; 4]> = vec![];
+            // every built-in name as a mod id (split over rounds), alphanumeric triples, ordinary ids
+            for (k, n) in names.iter().enumerate() {
+                if k % 4 == round % 4 {
+                    ids.push([n[0], n[1], n[2], 0]);
+                }
+            }
+            for _ in 0..6 {
+                let t: Vec<u8> = (0..3).map(|_| *r.pick(b"0123456789ABCDEFXYZabcxyz")).collect();
+                ids.push([t[0], t[1], t[2], 0]);
+                ids.push(r.next_u32().to_le_bytes());
+            }
+            ids.sort();
+            ids.dedup();
+            ids.retain(|b| *b != [0, 0, 0, 0]);
+            let n = ids.len();
+            let mut f = vec![((8 + 4 * n) / 4) as u8, 65, 1, n as u8, 0, 0, 0, 0];
+            for b in &ids {
+                f.extend_from_slice(b);
+            }
+            p.evaluations += 1;
+            p.distinct(&f);
+            let replay = json!({"frame": hex(&f)});
+            match real_decode(&f, true) {
+                Dec::Packet(pk, _) => {
+                    let dbg = format!("{:?}", pk);
+                    let mods = dbg.to_uppercase().matches("MOD(").count(); // Vehicle's Debug prints MOD(hex id)
+                    if mods != n {
+                        p.violation(
+                            "C13/mal/mod-id-not-a-mod",
+                            format!("an IS_MAL frame with {n} mod ids (some spelling car names) decodes to {mods} mods: {}", dbg.chars().take(300).collect::<String>()),
+                            replay.clone(),
+                        );
+                    }
+                    match real_encode(&pk, true) {
+                        Enc::Ok(back) => {
+                            // the set may be re-ordered; the ids must all be there
+                            let mut got: Vec<[u8; 4]> = back[8..].chunks(4).map(|c| [c[0], c[1], c[2], c[3]]).collect();
+                            got.sort();
+                            if got != ids {
+                                p.violation("C13/mal/reencode-differs", format!("IS_MAL with {n} ids re-encodes to {} ids / different ids", got.len()), replay);
+                            }
+                        },
+                        other => p.violation("C13/mal/reencode-failed", format!("decoded IS_MAL cannot be re-encoded: {:?}", matches!(other, Enc::Err(_))), replay),
+                    }
+                },
+                other => p.violation("C13/mal/rejected", format!("an IS_MAL frame whose mod ids spell car names is rejected: {}", format!("{:?}", other).chars().take(200).collect::<String>()), replay),
+            }
+        }
+        ctx.merge(p);
+    }
     accepted.sort();
     accepted.dedup();
     let names: Vec<String> = accepted.iter().map(|a| String::from_utf8_lossy(a).to_string()).collect();
